@@ -228,6 +228,53 @@ func init() {
 		return true
 	})
 	specMods["slices.Index"] = func(p *Program, c *ssa.CallCommon) []string { return nil }
+	reg("cmp.Compare", "-1, 0 or +1 as a < b, a == b, a > b (ordered types; NaN is not modelled); no effects", func(c *callCtx) bool {
+		if len(c.args) != 2 {
+			return false
+		}
+		a, b := c.args[0], c.args[1]
+		var lt string
+		switch a.Sort {
+		case SInt, SReal:
+			lt = app("<", a.S, b.S)
+		case SStr:
+			lt = app("u_slt", a.S, b.S)
+			c.x.vc.axiom("(forall ((a Str)) (! (not (u_slt a a)) :pattern ((u_slt a a))))")
+		default:
+			return false
+		}
+		c.res = []Term{{S: mkIte(lt, "(- 1)", mkIte(mkEq(a.S, b.S), "0", "1")), Sort: SInt, T: types.Typ[types.Int]}}
+		return true
+	})
+	specMods["cmp.Compare"] = func(p *Program, c *ssa.CallCommon) []string { return nil }
+	reg("cmp.Or", "the first argument that is not the zero value, else the zero value (call sites with a literal argument list only); no effects", func(c *callCtx) bool {
+		sv, ok := c.argVals[0].(*ssa.Slice)
+		if !ok {
+			return false
+		}
+		al, ok := sv.X.(*ssa.Alloc)
+		if !ok || sv.Low != nil || sv.High != nil {
+			return false
+		}
+		at, ok := types.Unalias(deref(al.Type())).Underlying().(*types.Array)
+		if !ok || at.Len() > 16 {
+			return false
+		}
+		x := c.x
+		h := x.heapElem(at.Elem())
+		hs := x.get(c.st, h).S
+		s0 := c.args[0].S
+		zero := x.ss.zero(at.Elem()).S
+		r := zero
+		for i := int(at.Len()) - 1; i >= 0; i-- {
+			e := app("select", app("select", hs, app("s.arr", s0)), app("+", app("s.off", s0), intLit(int64(i))))
+			r = mkIte(mkEq(e, zero), r, e)
+		}
+		res := x.nameTerm(c.n, "cmpor", Term{S: r, Sort: x.ss.sortOf(at.Elem()), T: at.Elem()})
+		c.res = []Term{res}
+		return true
+	})
+	specMods["cmp.Or"] = func(p *Program, c *ssa.CallCommon) []string { return nil }
 	reg("slices.Equal", "result <==> same length and equal elements at every index; no effects", func(c *callCtx) bool {
 		sl, ok := types.Unalias(c.argVals[0].Type()).Underlying().(*types.Slice)
 		if !ok {
